@@ -5,6 +5,7 @@ import (
 	"github.com/ipld/go-ipld-prime/datamodel"
 	nd "github.com/ipld/go-ipld-prime/internal/verifnd"
 	"github.com/ipld/go-ipld-prime/node/basicnode"
+	"github.com/ipld/go-ipld-prime/zzverif/ref/fnode"
 	"github.com/ipld/go-ipld-prime/zzverif/ref/gen"
 	"github.com/ipld/go-ipld-prime/zzverif/ref/nodecheck"
 	"github.com/ipld/go-ipld-prime/zzverif/ref/refschema"
@@ -321,12 +322,19 @@ func HWrongKind() {
 		basicnode.Prototype.Bytes, basicnode.Prototype.Link, basicnode.Prototype.Map, basicnode.Prototype.List}
 	kinds := []refval.Kind{refval.Bool, refval.Int, refval.Float, refval.String, refval.Bytes, refval.Link, refval.Map, refval.List}
 	pi := nd.Choose("proto", len(protos))
-	vals := []string{"t", "i", "f", "s1", "b1", "l", "{1i}", "[i]", "n"}
+	vals := []string{"t", "i", "f", "s1", "b1", "l", "{1i}", "[i]", "n", "{}", "[]", "s0", "b0"}
 	vi := nd.Choose("val", len(vals))
 	v := gen.FromShape("", vals[vi])
 	nb := protos[pi].NewBuilder()
 	var err error
-	nd.NoPanic("assign", func() { err = gen.Assign(nb, v) })
+	switch nd.Choose("route", 3) {
+	case 0: // the kind's own Assign* / Begin* calls
+		nd.NoPanic("assign", func() { err = gen.Assign(nb, v) })
+	case 1: // a whole node of that kind, built by the generic builder
+		nd.NoPanic("AssignNode", func() { err = nb.AssignNode(gen.MustBuild(v)) })
+	case 2: // a whole node of another implementation
+		nd.NoPanic("AssignNode (foreign)", func() { err = nb.AssignNode(fnode.New(v)) })
+	}
 	if v.K == kinds[pi] {
 		nd.Assert(err == nil, "the matching kind is accepted")
 		if err == nil {
